@@ -225,6 +225,27 @@ def delete_s_rooted(present: int, style: int, ignore: bool, v: int, w: int) -> b
     return t == {'x': w} or fail(why='target touched', t=t)
 
 
+def seg_named_x(name: int, shape: int, style: int, v: int, w: int) -> bool:
+    """path segments that happen to be spelled like the internal wildcard markers ('x', 'X') are ordinary keys / attributes"""
+    start()
+    name, shape, style = concretize(name, 0, 2), concretize(shape, 0, 2), concretize(style, 0, 2)
+    if OUT in (name, shape, style):
+        return True
+    nm = ['x', 'X', 'xX'][name]
+    inner = [{'y': w, 'keep': 1}, {}, [{'y': w}]][shape]
+    t = {'pos': {nm: inner}, nm: {'y': w}}
+    segs = ['pos', nm, 'y']
+    path = ['.'.join(segs), Path(*segs), T['pos'][nm]['y']][style]
+    snap = copy.deepcopy(t)
+    got = run(lambda: glom(t, Delete(path), glom_debug=True))
+    reach('seg_named_x')
+    if shape != 0:
+        return (got.kind == 'err' and t == snap) or fail(why='nothing to delete there: error, target unchanged', got=got, t=t)
+    exp = copy.deepcopy(snap)
+    del exp['pos'][nm]['y']
+    return (got.kind == 'ok' and got.value is t and t == exp) or fail(why='plain nested del', got=got, t=t, exp=exp)
+
+
 def _mk_parent(kind, v):
     """final parents of different kinds that all accept the segment '0' / 'k'"""
     if kind == 0:
@@ -351,6 +372,8 @@ def obligations(tier):
     obs.append(Ob(delete_fn, pre='0 <= which <= 4 and len(xs) <= 2', name='delete_fn'))
     obs.append(Ob(delete_s_rooted, pre='0 <= present <= 2 and 0 <= style <= 1', name='delete_s_rooted'))
     obs.append(Ob(delete_s_rooted, pre='0 <= present <= 2 and 0 <= style <= 1', twin='del_s_rooted', name='delete_s_rooted'))
+    obs.append(Ob(seg_named_x, pre='0 <= name <= 2 and 0 <= shape <= 2 and 0 <= style <= 2', name='seg_named_x'))
+    obs.append(Ob(seg_named_x, pre='0 <= name <= 2 and 0 <= shape <= 2 and 0 <= style <= 2', twin='seg_named_x', name='seg_named_x'))
     obs.append(Ob(delete_ctx, pre='0 <= kind <= 3 and len(xs) <= 3', name='delete_ctx'))
     obs.append(Ob(delete_ctx, pre='0 <= kind <= 3 and len(xs) <= 3', twin='delete_ctx', name='delete_ctx'))
     wp = '0 <= style <= 2 and 0 <= s0 <= 2 and 0 <= s1 <= 2 and 0 <= s2 <= 2'
